@@ -98,45 +98,71 @@ theorem task_no_idle (e : Env) (wf : WF e) (σ : St) (t r : Nat)
 
 /-! ### whole projects, in terms of the final ledger -/
 
-/-- an effort task allocated to the single leaf resource `r` (no alternative), `r` and its groups without limits, the task and
-    its containers without limits, no start of its own -/
+/-- an effort task allocated to the single leaf resource `r` (no alternative), no start of its own -/
 theorem eligU_of_single (e : Env) (t r : Nat) (hlf : (e.taskD t).leaf = true) (ha : (e.taskD t).hasAlloc = true)
     (hm : (e.taskD t).milestone = false) (hpos : 0 < (e.taskD t).effort)
     (hal : (e.taskD t).alloc = [r]) (halt : (e.taskD t).alt = []) (hns : (e.taskD t).startProvided = false)
-    (hrl : resLimitIds e r = []) (htl : taskLimitIds e t = []) (hrleaf : (e.resD r).leaf = true) : EligU e t r :=
-  ⟨⟨hlf, ha, hm, hpos, fun σ c => by rw [hal, halt]; exact selectBest_single e σ r _ c⟩, hns, hrl, htl, hrleaf⟩
+    (hrleaf : (e.resD r).leaf = true) : EligU e t r :=
+  ⟨⟨hlf, ha, hm, hpos, fun σ c => by rw [hal, halt]; exact selectBest_single e σ r _ c⟩, hns, hrleaf⟩
 
-/-- **C08 for whole projects (forward mode)** (`Proofs/NoIdle`, `Proofs/NoIdleGlobal`, `Proofs/Solid`): after scheduling ANY
-    well-formed project, for every forward effort task `t` reported as scheduled, without a start of its own, whose single
-    selected resource `r` is an unlimited leaf: every predecessor is scheduled, and between the slot of the dependency bound —
-    the latest of the project start, an inherited start and every predecessor's (start | end) + gap in the FINAL schedule —
-    and any slot `L` in which `t` is booked (in particular the last one, which holds its end), every slot in which `r` is on
-    shift and not on leave carries a booking in the final ledger.  The task never waits, and never pauses, while its resource
-    could work for it. -/
-theorem no_idle_final (e : Env) (wf : WF e) (tr : Tree e) (t r : Nat) (hel : EligU e t r)
+/-- **C08 for whole projects (forward mode), any single resource** (`Proofs/NoIdle`, `Proofs/NoIdleGlobal`, `Proofs/Solid`):
+    after scheduling ANY well-formed project, for every forward effort task `t` reported as scheduled, without a start of its
+    own, with the single selected leaf resource `r`: every predecessor is scheduled, and between the slot of the dependency
+    bound — the latest of the project start, an inherited start and every predecessor's (start | end) + gap in the FINAL
+    schedule — and any slot `L` in which `t` is booked (in particular the last one, which holds its end), every slot in which
+    `r` is on shift and not on leave carries a booking in the final ledger, or a limit of the resource / a group / the task /
+    a container refuses that slot in the final state (the only legitimate reason to leave working time unused). -/
+theorem no_idle_final_limits (e : Env) (wf : WF e) (tr : Tree e) (t r : Nat) (hel : EligU e t r)
     (hs : ((runScenario e).tst t).scheduled = true) (hf : ((runScenario e).tst t).forward = true) :
     (∀ dp ∈ (e.taskD t).allDeps, ((runScenario e).tst dp.target).scheduled = true) ∧
     ∀ L, usageOf ((runScenario e).led.get r L).usage t ≠ none →
       ∀ i, boundSlot e (runScenario e) t ≤ i → i ≤ L → e.onShift r i = true → e.leaveMark r i = false →
-        ((runScenario e).led.get r i).usage ≠ [] :=
+        ((runScenario e).led.get r i).usage ≠ [] ∨ Exhausted e (runScenario e) t r i :=
   runScenario_doneIdle e wf tr t r hel
     (runScenario_scheduled_done e t ⟨hel.el.leaf, hel.el.effort, hel.el.nomile⟩ hs) hf
+
+/-- **C08 as stated — the unlimited resource**: when neither `r` (nor a group above it) nor `t` (nor a container above it)
+    carries a limit, every working slot of `r` between the bound and the end of `t` carries a booking in the final ledger.
+    The task never waits, and never pauses, while its resource could work for it. -/
+theorem no_idle_final (e : Env) (wf : WF e) (tr : Tree e) (t r : Nat) (hel : EligU e t r)
+    (hrl : resLimitIds e r = []) (htl : taskLimitIds e t = [])
+    (hs : ((runScenario e).tst t).scheduled = true) (hf : ((runScenario e).tst t).forward = true) :
+    (∀ dp ∈ (e.taskD t).allDeps, ((runScenario e).tst dp.target).scheduled = true) ∧
+    ∀ L, usageOf ((runScenario e).led.get r L).usage t ≠ none →
+      ∀ i, boundSlot e (runScenario e) t ≤ i → i ≤ L → e.onShift r i = true → e.leaveMark r i = false →
+        ((runScenario e).led.get r i).usage ≠ [] := by
+  obtain ⟨h1, h2⟩ := no_idle_final_limits e wf tr t r hel hs hf
+  refine ⟨h1, fun L hL i hb hi hon hnl => ?_⟩
+  rcases h2 L hL i hb hi hon hnl with h3 | h3
+  · exact h3
+  · exfalso
+    unfold Exhausted at h3
+    rw [hrl, htl] at h3
+    rcases h3 with ⟨_, hm, _⟩ | ⟨_, hm, _⟩ <;> cases hm
 
 /-- the same for the environment elaborated from a project description, under the decidable checks -/
 theorem no_idle_final_elab (p : RawProj) (h : wfCheck (elaborate p).env = true) (htr : treeCheck (elaborate p).env = true)
     (t r : Nat) (hel : EligU (elaborate p).env t r)
+    (hrl : resLimitIds (elaborate p).env r = []) (htl : taskLimitIds (elaborate p).env t = [])
     (hs : ((runScenario (elaborate p).env).tst t).scheduled = true)
     (hf : ((runScenario (elaborate p).env).tst t).forward = true) :
     ∀ L, usageOf ((runScenario (elaborate p).env).led.get r L).usage t ≠ none →
       ∀ i, boundSlot (elaborate p).env (runScenario (elaborate p).env) t ≤ i → i ≤ L →
         (elaborate p).env.onShift r i = true → (elaborate p).env.leaveMark r i = false →
         ((runScenario (elaborate p).env).led.get r i).usage ≠ [] :=
-  (no_idle_final _ (wfCheck_sound _ h) (treeCheck_sound _ htr) t r hel hs hf).2
+  (no_idle_final _ (wfCheck_sound _ h) (treeCheck_sound _ htr) t r hel hrl htl hs hf).2
 
 /-- what makes "not available" mean "booked": in every state a scenario run ends in, a slot without entries still has room
     (a start-offset reservation or a team levelling never fills a slot by itself) and a marked slot carries an entry -/
 theorem reservations_never_fill_a_slot (e : Env) (wf : WF e) : Solid e (runScenario e) :=
   runScenario_closed (solid_closed e wf) wf (fun _ => trivial) (solid_init e wf)
+
+/-- a limit that refuses: its counter for the period of the slot is at (or above) the limit -/
+theorem refuses_iff (e : Env) (σ : St) (lid : Nat) (i : Int) (ro : Option Nat) :
+    Refuses e lid i ro σ ↔
+      ¬ ((e.limitD lid).res.isSome && (e.limitD lid).res != ro) = true ∧ 0 ≤ e.period (e.limitD lid) i ∧
+      (e.limitD lid).value ≤ σ.cnt.get lid (e.period (e.limitD lid) i) :=
+  limitOk_false_iff e σ lid i ro
 
 /-- non-vacuity: b (1 h) depends on a (20 min) with a gap of 90 min, one resource -/
 def gapProj : RawProj :=
@@ -149,6 +175,7 @@ example : wfCheck (elaborate gapProj).env = true := by decide +kernel
 example : treeCheck (elaborate gapProj).env = true := by decide +kernel
 example : EligU (elaborate gapProj).env 1 0 :=
   eligU_of_single _ 1 0 (by decide +kernel) (by decide +kernel) (by decide +kernel) (by decide +kernel) (by decide +kernel)
-    (by decide +kernel) (by decide +kernel) (by decide +kernel) (by decide +kernel) (by decide +kernel)
+    (by decide +kernel) (by decide +kernel) (by decide +kernel)
+example : resLimitIds (elaborate gapProj).env 0 = [] ∧ taskLimitIds (elaborate gapProj).env 1 = [] := by decide +kernel
 
 end SP.C08
